@@ -17,16 +17,19 @@ from ..core import R, dec_arr, dec_list, drive_enum, drive_hypothesis
 
 PROP = "C14"
 RULE = ("Generator: surfaces <= 12 a side (float64/float32/int64; barrier value sets [0], [0,2], [], [0.0,-1.5], [-1]; NaN cells), three layout "
-        "kinds (random density 10/30/50 %, walls with one gap each, spiral corridors; mazes randomly perturbed), connectivity 4/8, y/x "
-        "coordinates ascending/descending with step in {1,0.1,0.3,0.7,1/3,2.5} and offset in {0,10.7,-3.3,100,1e6}, square and non-square "
-        "cells, res attribute absent/tuple/list/scalar (always present on 1xN / Nx1), start/goal given as the cell's own coordinates or as "
-        "off-centre points (|offset| <= 0.48 cell, incl. beyond the outermost centre), tuple/list/ndarray points, dims y/x or lat/lon, "
-        "snap_start/snap_goal on/off with end points on crossable or blocked cells. Exhaustive family: every blocked-cell layout x every "
-        "ordered (start, goal) pair x both connectivities (snap off, plus snap switched on for every blocked end) on the listed grids, "
-        "coordinate class cycled over 12 step/offset/direction/res/off-centre variants. Oracle: Dijkstra + chain validity (see module "
-        "docstring). Non-trivial: a route exists between the (possibly snapped) ends AND (the optimal route is longer than the obstacle-free "
-        "distance [detour], or a coordinate step is fractional, or snapping moved an end point); distinct by SHA-1 of the case (random) or "
-        "enumeration index (exhaustive).")
+        "kinds (random with ~10/20/30/50 % blocked cells, walls with one gap each incl. serpentines, spiral corridors; mazes perturbed by <= 2 "
+        "flipped cells), size classes 1-3 / 2-6 / 7-12 plus a 'big' profile (both sides 6-12, sparse obstacles, goal often the farthest "
+        "reachable cell), connectivity 4/8, y/x coordinates ascending/descending with step in {1,0.1,0.3,0.7,1/3,2.5} and offset in "
+        "{0,10.7,-3.3,100,1e6}, square and non-square cells, res attribute absent/tuple/list/scalar (always present on 1xN / Nx1), start/goal "
+        "given as the cell's own coordinates or as off-centre points (|offset| <= 0.48 cell, incl. beyond the outermost centre), "
+        "tuple/list/ndarray/NumPy-scalar points, dims y/x or lat/lon, snap_start/snap_goal on/off with end points on crossable or blocked "
+        "cells. Exhaustive families: (a) every blocked-cell layout x every ordered (start, goal) pair x both connectivities (snap off, plus "
+        "snap switched on for every blocked end) on the listed grids, coordinate class cycled over 12 step/offset/direction/res/off-centre "
+        "variants; (b) 'own coordinates': every (step, offset, direction) axis class x axis length {2,3,7,12} x every cell index x res "
+        "none/tuple/scalar, exact and 0.48-cell off-centre; (c) the only crossable cell in the corner opposite a blocked, snapped end. "
+        "Oracle: Dijkstra + chain validity (module docstring). Non-trivial: a route exists between the (possibly snapped) ends AND (the "
+        "optimal route is longer than the obstacle-free distance [detour], or a coordinate step is fractional, or snapping moved an end "
+        "point); distinct by SHA-1 of the case (random) or enumeration index (exhaustive).")
 ASSUMPTIONS = ["surface is 2-D with two regularly spaced dimension coordinates; a 1xN / Nx1 surface carries a 'res' attribute "
                "(no cell size is defined otherwise: calc_res divides by n-1)",
                "a 'res' attribute, when present, equals the coordinate spacing (x, y)",
@@ -34,7 +37,7 @@ ASSUMPTIONS = ["surface is 2-D with two regularly spaced dimension coordinates; 
                "snapping is only exercised on square cells (index-space and coordinate-space nearest agree); ties between equally near "
                "crossable cells may be resolved either way",
                "barriers is a homogeneous list of numbers"]
-BUDGET_S = {"quick": 150, "thorough": 900}
+BUDGET_S = {"quick": 300, "thorough": 1500}
 
 STEPS = [1.0, 0.1, 0.3, 0.7, 1.0 / 3.0, 2.5]
 OFFSETS = [0.0, 10.7, -3.3, 100.0, 1e6]
@@ -321,6 +324,23 @@ def body_astar(case, ctx):
         r.label("dims=lat/lon")
     if routes and not detour and not fractional and not moved:
         r.label("route_straight_integer")
+    if case.get("kind") in ("random", "walls", "spiral"):  # distribution of the random part alone
+        r.label("rnd:n", "rnd:route=" + ("yes" if routes else "no"))
+        if detour:
+            r.label("rnd:detour")
+            if conn == 8:
+                r.label("rnd:detour&conn8")
+        if moved and S_c and G_c:
+            r.label("rnd:snap_moved")
+        if fractional:
+            r.label("rnd:fractional_step")
+        if not exact:
+            r.label("rnd:offcentre")
+        if min(h, w) >= 6:
+            r.label("rnd:both_sides>=6")
+        if routes:
+            L = max(dijkstra(cross, s_, conn)[g_[0]][g_[1]] for s_, g_ in routes)
+            r.label("rnd:route_len" + ("<3" if L < 3 else "3-6" if L < 6 else "6-12" if L < 12 else ">=12"))
 
     # ---- the call under test
     kw_s = snap_s if (snap_s or case.get("explicit_flags", True)) else None
@@ -448,10 +468,17 @@ def coord_specs(draw, h, w, square):
 
 
 @st.composite
-def astar_cases(draw, max_side=12):
-    h = draw(st.one_of(st.integers(1, 5), st.integers(1, max_side)))
-    w = draw(st.one_of(st.integers(1, 5), st.integers(1, max_side)))
-    kind = draw(st.sampled_from(["random", "random", "walls", "spiral"]))
+def astar_cases(draw, profile="mix"):
+    """profile 'mix': all size classes and layout kinds; 'big': both sides 6..12, sparse random obstacles, long routes
+    (the class in which a wrong heuristic / wrong open-closed bookkeeping shows)."""
+    if profile == "big":
+        h, w = draw(st.integers(6, 12)), draw(st.integers(6, 12))
+        kind = draw(st.sampled_from(["random", "random", "random", "walls"]))
+    else:
+        size = draw(st.sampled_from(["tiny", "small", "small", "big", "big", "any"]))
+        lo, hi = {"tiny": (1, 3), "small": (2, 6), "big": (7, 12), "any": (1, 12)}[size]
+        h, w = draw(st.integers(lo, hi)), draw(st.integers(lo, hi))
+        kind = draw(st.sampled_from(["random", "random", "walls", "spiral"]))
     if kind != "random" and min(h, w) < 3:
         kind = "random"
     dtype = draw(st.sampled_from(["float64", "float64", "float64", "float32", "int64"]))
@@ -460,7 +487,7 @@ def astar_cases(draw, max_side=12):
     barriers, blk_f, blk_i, cr_f, cr_i = BSETS[bset]
     blk = blk_f if is_f else blk_i
     crs = cr_f if is_f else cr_i
-    if kind != "random" and not blk:
+    if (kind != "random" or profile == "big") and not blk:
         bset = "b0"
         barriers, blk_f, blk_i, cr_f, cr_i = BSETS[bset]
         blk = blk_f if is_f else blk_i
@@ -469,14 +496,15 @@ def astar_cases(draw, max_side=12):
         barriers = [0]  # integer surface: integer barrier list
 
     if kind == "random":
-        dens = draw(st.sampled_from([1, 3, 6])) if blk else 0  # blocked share ~ 1/10, 3/10, 1/2
-        elem = st.one_of(*([st.sampled_from(crs)] * (10 - dens if dens < 6 else 6) + ([st.sampled_from(blk)] * dens if dens else [])))
-        flat = draw(st.lists(elem, min_size=h * w, max_size=h * w))
+        # blocked share ~ 10, 20, 30, 50 %; one integer per cell (cheap to draw, shrinks towards "crossable")
+        dens = draw(st.sampled_from([1, 2, 3] if profile == "big" else [1, 2, 3, 5])) if blk else 0
+        flat_i = draw(st.lists(st.integers(0, 9), min_size=h * w, max_size=h * w))
+        flat = [blk[(v + k) % len(blk)] if v >= 10 - dens else crs[(v + k) % len(crs)] for k, v in enumerate(flat_i)]
         data = [flat[i * w:(i + 1) * w] for i in range(h)]
     else:
         if kind == "walls":
             by_rows = draw(st.booleans())
-            n_w = max(1, ((h if by_rows else w) - 1 + 1) // 2)
+            n_w = max(1, (h if by_rows else w) // 2)
             if draw(st.booleans()):
                 gaps = [0 if k % 2 == 0 else max(h, w) - 1 for k in range(n_w)]  # serpentine: gaps at alternating ends
                 if draw(st.booleans()):
@@ -504,10 +532,11 @@ def astar_cases(draw, max_side=12):
 
     crossable = [(i, j) for i in range(h) for j in range(w) if not _is_blocked_token(data[i][j], barriers)]
     blocked = [(i, j) for i in range(h) for j in range(w) if _is_blocked_token(data[i][j], barriers)]
-    snap_s = draw(st.sampled_from([False, False, True]))
-    snap_g = draw(st.sampled_from([False, False, True]))
+    snap_p = [False] * 7 + [True] if profile == "big" else [False, False, False, True]
+    snap_s = draw(st.sampled_from(snap_p))
+    snap_g = draw(st.sampled_from(snap_p))
 
-    conn = draw(st.sampled_from([4, 8]))
+    conn = draw(st.sampled_from([4, 8, 8] if profile == "big" else [4, 8]))
 
     def pick(snap):
         mode = draw(st.sampled_from(["blocked", "blocked", "cross", "any"] if snap else ["cross"] * 8 + ["blocked", "any"]))
@@ -516,14 +545,14 @@ def astar_cases(draw, max_side=12):
         return pool[draw(st.integers(0, len(pool) - 1))]
     s = pick(snap_s)
     g = pick(snap_g)
-    if crossable and s in crossable and draw(st.sampled_from([kind != "random", False, True])):
+    if crossable and s in crossable and draw(st.sampled_from([kind != "random" or profile == "big", False, True])):
         # goal = the reachable cell farthest from the start (longest forced detour of this layout)
         cm = np.zeros((h, w), bool)
         for c in crossable:
             cm[c] = True
         D = dijkstra(cm, s, conn)
         g = max(crossable, key=lambda c: (D[c[0]][c[1]] if math.isfinite(D[c[0]][c[1]]) else -1.0, c))
-    y, x, res = draw(coord_specs(h, w, square=(snap_s or snap_g or draw(st.booleans()))))
+    y, x, res = draw(coord_specs(h, w, square=(snap_s or snap_g or draw(st.sampled_from([False, False, False, True])))))
     offc = draw(st.sampled_from([False, False, True]))
     fr = st.sampled_from(FRACS + [0])
     s_off = [draw(fr), draw(fr)] if offc else [0, 0]
@@ -620,6 +649,27 @@ def diag_cases():
                                "res": res, "s": list(s), "g": list(g), "conn": 8 if vi % 2 else 4, "snap_start": ss, "snap_goal": sg}
 
 
+def own_coord_cases(res_mode):
+    """'A cell's own coordinates denote that cell' over every (step, offset, direction) axis class x axis length x cell index:
+    obstacle-free surface, start = cell (i, j) named by its own coordinates (and, second variant, by a point 0.48 cell off-centre),
+    goal = another cell; the chain must start and end on exactly those cells."""
+    classes = [(st_, off, desc) for st_ in STEPS for off in OFFSETS for desc in (False, True)]
+    for n in (2, 3, 7, 12):
+        for k, (ystep, yoff, ydesc) in enumerate(classes):
+            xstep, xoff, xdesc = classes[(k * 7 + 3 + n) % len(classes)]
+            if res_mode == "scalar":
+                xstep = ystep
+            m = 12 if n != 12 else 7  # x length differs from y length
+            for i in range(n):
+                j = (i * 5 + k) % m
+                for var, fr in enumerate(([0, 0], [0.48 if (i + k) % 2 else -0.48, -0.48 if (i + k) % 3 else 0.48])):
+                    yield {"sub": "astar", "kind": "own_coord", "surface": {"dtype": "float64", "data": [[1.0] * m for _ in range(n)]},
+                           "barriers": [], "y": {"start": yoff, "step": ystep, "desc": ydesc, "n": n},
+                           "x": {"start": xoff, "step": xstep, "desc": xdesc, "n": m}, "res": res_mode,
+                           "s": [i, j], "g": [(i + n // 2) % n, (j + 5) % m], "s_off": fr, "g_off": [fr[1], fr[0]],
+                           "conn": 8 if (i + k) % 2 else 4, "snap_start": False, "snap_goal": False, "enum": ["own", res_mode, n, k, i, var]}
+
+
 # ------------------------------------------------------------------ shards
 
 def _blocks(h, w, nblk):
@@ -643,10 +693,15 @@ def _blocks(h, w, nblk):
 
 def shards(tier):
     out = []
-    nrand = 16 if tier == "thorough" else 8
-    per = 2000 if tier == "thorough" else 400
+    nrand, per = (16, 2000) if tier == "thorough" else (8, 400)
+    nbig, perbig = (8, 2500) if tier == "thorough" else (4, 500)
     for i in range(nrand):
-        out.append(("rand#%d" % i, lambda ctx, i=i: drive_hypothesis(ctx, body_astar, astar_cases(12), per)))
+        out.append(("rand#%d" % i, lambda ctx, i=i: drive_hypothesis(ctx, body_astar, astar_cases("mix"), per)))
+    for i in range(nbig):
+        out.append(("big#%d" % i, lambda ctx, i=i: drive_hypothesis(ctx, body_astar, astar_cases("big"), perbig)))
+    for mode in ("none", "tuple", "scalar"):
+        out.append(("own_coord_res=%s" % mode, lambda ctx, mode=mode: drive_enum(
+            ctx, body_astar, own_coord_cases(mode), space="own coordinates: axis classes x lengths {2,3,7,12} x cell index, res=%s" % mode)))
 
     small = [(1, 1), (1, 2), (2, 1), (1, 3), (3, 1), (2, 2), (1, 4), (4, 1), (2, 3), (3, 2)]
 
@@ -671,8 +726,9 @@ def shards(tier):
 
 LEVEL_TEXT = ("Randomised (Hypothesis) plus bounded-exhaustive search: every blocked-cell layout x every ordered start/goal pair x both "
               "connectivities (snap off, and snap on for every blocked end) on all grids up to 3x3, 1x4, 2x4 and their transposes (quick) plus "
-              "3x4/4x3 (thorough), and thousands of random/maze surfaces up to 12x12 over coordinate classes, each compared with a Dijkstra "
-              "+ chain-validity oracle. Decides the property inside the enumerated spaces, samples it outside.")
+              "3x4/4x3 (thorough); every cell index of every coordinate step/offset/direction class named by its own coordinates; and "
+              "thousands of random/maze surfaces up to 12x12 over coordinate classes, each compared with a Dijkstra + chain-validity oracle. "
+              "Decides the property inside the enumerated spaces, samples it outside.")
 LEVEL_NOTE = ("Snapping is checked on square cells only; ties among equally near crossable cells are accepted either way; points are kept >= 0.02 "
               "cell away from a cell boundary; absence of violations outside the enumerated grids is sampled, not proven.")
 TECHNIQUE = "property-based testing (Hypothesis) + exhaustive small-grid enumeration against a Dijkstra reference model"
